@@ -223,6 +223,13 @@ func (r *Run) opDeviceToken(st Step) {
 		r.probeAll("after the replay of " + dc.Name())
 		return
 	}
+	if r.Fault.fired && !r.Fault.mustRefuse() {
+		if tokens {
+			r.onDeviceSuccess(dc, cs, res)
+		}
+		g.Unspec = true
+		return
+	}
 	// admissible outcome classes: every class whose condition holds
 	adm := map[string]bool{}
 	refuse := false
@@ -551,10 +558,7 @@ func (r *Run) opAuthorizePAR(st Step) {
 				covered = false // the registration changed after the push: refusal is legitimate
 			}
 		}
-		if exp == Must && covered {
-			// the pushed request itself may be un-answerable (e.g. consent-time failure); only flag when nothing explains it
-			r.sanity("%s refused with %s (%v)", desc, res.ErrName, res.Err)
-		}
+		_ = covered // a pushed request may be unanswerable at authorization time (PKCE enforcement, registration changes, consent): no positive expectation
 		pc.Unspec = true
 		return
 	}
